@@ -28,10 +28,100 @@ func FieldKey(v ssa.Value) string {
 			return typeName(x.X.Type()) + "." + FieldName(x.X.Type(), x.Field)
 		case *ssa.Field:
 			return typeName(x.X.Type()) + "." + FieldName(x.X.Type(), x.Field)
+		case *ssa.Call:
+			// an accessor that only returns a field of its receiver
+			if r := ThinReturn(Callee(&x.Call)); r != nil {
+				v = r
+				continue
+			}
 		}
 		return ""
 	}
 	return ""
+}
+
+var thinMemo = map[*ssa.Function]ssa.Value{}
+
+// ThinReturn: f is an accessor of the repository - one block, no effects (only field selections, loads, conversions,
+// len/cap, AtomBool.Get and calls of other accessors), one result; returns the returned value, else nil.
+func ThinReturn(f *ssa.Function) ssa.Value {
+	if f == nil || len(f.Blocks) != 1 || f.Signature.Results().Len() != 1 || f.Pkg == nil || len(f.Params) == 0 {
+		return nil
+	}
+	if r, ok := thinMemo[f]; ok {
+		return r
+	}
+	thinMemo[f] = nil
+	if path := f.Pkg.Pkg.Path(); len(path) < len(ModPath) || path[:len(ModPath)] != ModPath {
+		return nil
+	}
+	var ret ssa.Value
+	for _, ins := range f.Blocks[0].Instrs {
+		switch x := ins.(type) {
+		case *ssa.FieldAddr, *ssa.Field, *ssa.ChangeType, *ssa.Convert, *ssa.MakeInterface, *ssa.DebugRef, *ssa.Alloc:
+		case *ssa.Store:
+			// spilling a value receiver into its local cell
+			if _, isAlloc := x.Addr.(*ssa.Alloc); !isAlloc {
+				return nil
+			}
+			if _, isPrm := x.Val.(*ssa.Parameter); !isPrm {
+				return nil
+			}
+		case *ssa.UnOp:
+			if x.Op != token.MUL {
+				return nil
+			}
+		case *ssa.Call:
+			g := Callee(&x.Call)
+			switch {
+			case IsBuiltin(&x.Call, "len"), IsBuiltin(&x.Call, "cap"):
+			case g != nil && FuncName(g) == "fpgo.AtomBool.Get":
+			case g != nil && g != f && ThinReturn(g) != nil:
+			default:
+				return nil
+			}
+		case *ssa.Return:
+			if len(x.Results) != 1 {
+				return nil
+			}
+			ret = x.Results[0]
+		default:
+			return nil
+		}
+	}
+	thinMemo[f] = ret
+	return ret
+}
+
+// thinBase: for a call of an accessor whose result is a field of its receiver, the receiver argument.
+func thinBase(call *ssa.Call) ssa.Value {
+	g := Callee(&call.Call)
+	r := ThinReturn(g)
+	if r == nil || len(call.Call.Args) == 0 {
+		return nil
+	}
+	for i := 0; i < 10; i++ {
+		switch x := r.(type) {
+		case *ssa.UnOp:
+			r = x.X
+			continue
+		case *ssa.ChangeType:
+			r = x.X
+			continue
+		case *ssa.Call:
+			if len(x.Call.Args) > 0 && (FuncName(Callee(&x.Call)) == "fpgo.AtomBool.Get") {
+				r = x.Call.Args[0]
+				continue
+			}
+		case *ssa.FieldAddr, *ssa.Field:
+			o := Resolve(FieldOwner(x.(ssa.Value)))
+			if o == ssa.Value(g.Params[0]) || isSpillOf(o, g.Params[0]) {
+				return call.Call.Args[0]
+			}
+		}
+		break
+	}
+	return nil
 }
 
 // FieldBase returns the path of the struct a field value was selected from.
@@ -54,6 +144,10 @@ func FieldBase(v ssa.Value) string {
 			return Path(FieldOwner(x))
 		case *ssa.Field:
 			return Path(FieldOwner(x))
+		case *ssa.Call:
+			if b := thinBase(x); b != nil {
+				return Path(b)
+			}
 		}
 		return ""
 	}
